@@ -949,6 +949,8 @@ def _joiner_model(cx, port, p, mod, cls):
             key_ok = False
         if kind == 'raise':
             res[n_] = 'raise:' + ('runtime' if isinstance(val, AX.Abs) and val.props.get('cls') == 'RbqlRuntimeError' else 'other')
+        elif len(matches) != n_:
+            res[n_] = 'mutated'
         elif val is matches:
             res[n_] = 'matches' if len(matches) == n_ and all(isinstance(x, AX.Abs) and x.kind == 'Match%d' % i for i, x in enumerate(matches)) else '?'
         elif val is nullrec:
@@ -968,6 +970,11 @@ def rule_jn_joiners(cx, rep, port):
         ms = roles.methods(c)
         g = ms['get_rhs']
         modelled[c.name] = _joiner_model(cx, port, p, mod, c)
+        if modelled[c.name] is not None and 'mutated' in modelled[c.name][0].values():
+            k_ = [n_ for n_, v_ in modelled[c.name][0].items() if v_ == 'mutated'][0]
+            rep.violated(c.name + ' lookup', g, '{}.get_rhs changes the list of matches that the join map returned (lookup with {} match(es)): that list belongs to the map - or is a shared empty list - so later lookups, of this query or the next, see the added elements'.format(c.name, k_))
+            modelled[c.name] = None
+            continue
         if modelled[c.name] is not None and '?' not in modelled[c.name][0].values():
             rep.decide(modelled[c.name][1], c.name + ' lookup', g, 'looks the key up in the join map (method evaluated on an abstract map with 0 / 1 / 2 matches)', '{}.get_rhs does not look up its key argument in the join map'.format(c.name))
             continue
